@@ -263,6 +263,79 @@ def run_case(case):
                        "chemostats": chst[:24], "reactions": [gen.eq_string(x["sub"], x["prod"]) for x in desc["reactions"]]}}
 
 
+def run_reservoir(case):
+    """A chemostated entry holding a macroscopic amount (1e9..1e14 molecules) as a diffusion source: one tau-leap step,
+    every entry's change judged against the master equation's mean and variance (independent Poisson channels,
+    Bernstein bound: |change - mean| <= 9 sqrt(var) + 30 fails with probability < 1e-17 per entry).  Event counts per
+    channel and step range from 1e3 to 1e11, i.e. below and beyond 2^31."""
+    use_repo()
+    engines.install()
+    sd, idx = case["seed"], case["idx"]
+    r = gen.rng_for(sd, "C03res", idx)
+    h = 10 ** r.uniform(-7, -5)
+    S = r.randint(1, 2)
+    envs = gen.ENVS[:r.randint(1, 2)]
+    labels = r.sample(gen.LABELS, S)
+    species = [{"label": l, "D": gen.per_env(r, envs, lambda: 10 ** r.uniform(-1.0, 0.7) * h * h), "density": 0.0, "chstt": False}
+               for l in labels]
+    for sp_ in species:       # diffusion everywhere (a per-environment 0 would cut the reservoir off)
+        if isinstance(sp_["D"], dict):
+            sp_["D"] = {k_: (v if v > 0 else h * h) for k_, v in sp_["D"].items()}
+            sp_["D"].setdefault("default", h * h)
+    if r.random() < 0.5:
+        space = gen.rand_grid(r, len(envs), h, dims=(1, 3), max_cells=6)
+    else:
+        space = gen.rand_graph(r, len(envs), h, nodes=(2, 5), simple=True, p_edge=0.7)
+    n = gen.ncells(space)
+    desc = {"envs": envs, "species": species, "reactions": [], "space": space, "h": h}
+    state = [float(r.choice([0, 0, r.randint(0, 1000)])) for _ in range(S * n)]
+    chst = [0] * (S * n)
+    k0 = r.randrange(S * n)
+    X0 = float(int(10 ** r.uniform(9, 14)))
+    state[k0], chst[k0] = X0, 1
+    if r.random() < 0.3:
+        k1 = r.randrange(S * n)
+        chst[k1] = 1
+    desc["state"], desc["chemostats"] = state, chst
+    chans = ref.channels(desc, chst)
+    props = [ref.propensity(c_, state) for c_ in chans]
+    amax = max(props + [0.0])
+    if amax <= 0:
+        return {"bad": [], "counts": {"reservoir_cases_without_channel": 1}, "key": None}
+    lam_max = 10 ** r.uniform(3, 11)
+    dt = lam_max / amax
+    system = gen.render_system(desc, gen.exact_molecule_rendering(r))
+    script = simhelp.make_script(system, r, dt_si=dt, t_sample_si=[0.0], policy="on_iteration", t_max_si=10 * dt, isp="none",
+                                 usys=(gen.mild_sys(r)[0], gen.mild_sys(r)[1], "molecule"), seed=r.randrange(2 ** 31))
+    t, d, complete, out = simhelp.run_script("tauleap", script, 1)
+    bad, counts = [], {"reservoir_cases": 1}
+    if d.shape[0] < 2:
+        return {"bad": [{"what": "reservoir probe: no record after one step", "case": case}], "counts": counts, "key": None}
+    x0, x1 = d[0].reshape(-1), d[1].reshape(-1)
+    mean, var = [0.0] * (S * n), [0.0] * (S * n)
+    for c_, a in zip(chans, props):
+        for k_, dl in c_[5].items():
+            mean[k_] += a * dt * dl
+            var[k_] += a * dt * dl * dl
+    if lam_max >= 2.0 ** 31:
+        counts["reservoir_cases_beyond_2^31_events_per_channel"] = 1
+    for k_ in range(S * n):
+        counts["reservoir_entries_judged"] = counts.get("reservoir_entries_judged", 0) + 1
+        ch_ = x1[k_] - x0[k_]
+        if chst[k_]:
+            if ch_ != 0 or x0[k_] != state[k_]:
+                bad.append({"what": "reservoir probe: flagged entry changed", "entry": k_, "before": x0[k_], "after": x1[k_], "case": case})
+            continue
+        if abs(ch_ - mean[k_]) > 9.0 * math.sqrt(var[k_]) + 30.0:
+            bad.append({"what": "reservoir probe: an entry fed by a macroscopic chemostated source did not change as the master equation prescribes",
+                        "entry": k_, "species": k_ // n, "cell": k_ % n, "change": float(ch_), "expected_mean": mean[k_],
+                        "expected_sd": math.sqrt(var[k_]), "events_per_step_of_largest_channel": lam_max, "source": k0,
+                        "source_amount": X0, "case": case})
+            break
+    return {"bad": bad[:3], "counts": counts, "key": chash([desc, "reservoir"]), "nontrivial": True,
+            "sample": {"seed": sd, "idx": idx, "source_amount": X0, "events_per_step": lam_max, "cells": n, "space": space["type"]}}
+
+
 def main():
     if len(sys.argv) > 2 and sys.argv[1] == "--replay":
         import json
@@ -308,6 +381,9 @@ def main():
     from vf.sandbox import run_extra as _run_extra
     from vf.common import seed as _seed, tier as _tier
     _run_extra(run, "vf.history:h_chemostat_alias", [{"seed": _seed(), "idx": _i} for _i in range(2400 if _tier() == "thorough" else 240)], cpu_budget=60, kind_prefix="history: ")
+    _run_extra(run, "vf.checks.c03:run_reservoir", [{"seed": _seed(), "idx": _i} for _i in range(3000 if _tier() == "thorough" else 300)],
+               cpu_budget=60, kind_prefix="")
+    run.require("reservoir_entries_judged", "reservoir_cases_beyond_2^31_events_per_channel")
     return run.finish()
 
 
